@@ -805,7 +805,10 @@ def request_tables() -> dict[str, str]:
 	if len(ex.body) != 1 or not isinstance(ex.body[0], ast.Return) or not isinstance(ex.body[0].value, ast.List) or not all(isinstance(v, ast.Constant) and type(v.value) is str for v in ex.body[0].value.elts):
 		raise TranslateError(f'bin/io.py tty: unrecognised quit branch `{ast.unparse(ex.body[0])}`')
 	rl = [x for x in io_tree.body if isinstance(x, ast.FunctionDef) and x.name == 'readline']
-	if len(rl) != 1 or not isinstance(rl[0].body[-1], ast.Return) or ast.unparse(rl[0].body[-1].value) != "res.stdout.decode('utf-8').rstrip()":
+	rv = rl[0].body[-1].value if len(rl) == 1 and isinstance(rl[0].body[-1], ast.Return) else None
+	# the request model relies on the strip only (a blank or whitespace-only line ends a request); how the bytes are decoded is readline's business
+	if not (isinstance(rv, ast.Call) and not rv.args and not rv.keywords and isinstance(rv.func, ast.Attribute) and rv.func.attr == 'rstrip'
+			and isinstance(rv.func.value, ast.Call) and ast.unparse(rv.func.value.func) == 'res.stdout.decode'):
 		raise TranslateError('bin/io.py readline: the result is not `res.stdout.decode(...).rstrip()`')
 	return {
 		'interactiveQuitTest': test,
